@@ -2,18 +2,20 @@
 // verification harness (seeds become deterministic when Deterministic is set).
 package vcrand
 
-import "crypto/rand"
+import (
+	"crypto/rand"
+	"sync/atomic"
+)
 
 var (
 	Deterministic bool
-	counter       byte
+	counter       uint32
 )
 
 func Read(b []byte) (int, error) {
 	if Deterministic {
 		for i := range b {
-			counter++
-			b[i] = counter
+			b[i] = byte(atomic.AddUint32(&counter, 1))
 		}
 		return len(b), nil
 	}
